@@ -103,7 +103,7 @@ func lfExpect(prefix string, as []gattr, out *[]lfPair) {
 			lfExpect(key, v.items, out)
 		case "nil":
 			*out = append(*out, lfPair{key, "<nil>"})
-		case "string", "stringer", "duration", "error", "bytes", "level", "fallback":
+		case "string", "stringer", "duration", "error", "bytes", "level", "fallback", "textm":
 			*out = append(*out, lfPair{key, "Q" + v.text})
 		case "time", "tstamp":
 			*out = append(*out, lfPair{key, "Q" + v.text})
